@@ -7,3 +7,44 @@ import (
 )
 
 func TestVerif(t *testing.T) { kit.Main(t, Props()...) }
+
+// fuzzCase maps raw fuzzer input to a case: the text is taken as it is, the option set and the kind are
+// decoded from two integers. Every bit pattern is a valid case.
+func fuzzCase(text string, kind uint8, bits uint32) Case {
+	pick := func(n int) int { v := int(bits) % n; bits /= uint32(n); return v }
+	flag := func() bool { return pick(2) == 1 }
+	var c Case
+	c.Mode = []string{"consume", "produce"}[pick(2)]
+	c.Kind = int(kind) % 8
+	c.Text = kit.BStr(text)
+	c.Opts.Comma = []int32{0, ';', '\t', '|'}[pick(4)]
+	c.Opts.Comment = []int32{0, '#'}[pick(2)]
+	c.Opts.Lazy, c.Opts.Trim = flag(), flag()
+	c.Opts.FPR = []int{0, -1, 2}[pick(3)]
+	c.Opts.Skip = pick(4)
+	c.Opts.CRLF, c.Opts.Reuse = flag(), flag()
+	c.Opts.WComma = []int32{0, ';'}[pick(2)]
+	c.Pre = pick(4)
+	c.Chunk = pick(3)
+	return c
+}
+
+// FuzzCSV is the native coverage-guided target of the thorough tier: raw text bytes, same oracle.
+func FuzzCSV(f *testing.F) {
+	seeds := []string{"", "a,b\nc,d\n", "\"q\",\"x,y\"\r\n\"l1\nl2\",\"d\"\"q\"\n", "a;b;c\n#note\n\n d; e;f", "bad\"q,x\n", "\"open", "\"\"\n", "a\rb,\r\n", "x|y\t z\n"}
+	for i, s := range seeds {
+		for k := 0; k < 8; k++ {
+			f.Add(s, uint8(k), uint32(i*7919+k*104729))
+		}
+	}
+	f.Fuzz(func(t *testing.T, text string, kind uint8, bits uint32) {
+		if len(text) > 4096 {
+			return
+		}
+		c := fuzzCase(text, kind, bits)
+		if v := Check(c); v != nil {
+			p := kit.WriteReplay("C16", c.Mode, "fuzz", c, v.Msg)
+			t.Fatalf("VIOLATION property=C16 replay=%s\n%s", p, v.Msg)
+		}
+	})
+}
